@@ -1,4 +1,5 @@
 import MQ.Inv.EpochLemmas
+import MQ.Inv.RegMain
 /-! # EpochInv — preservation by `run` steps -/
 set_option linter.unusedSimpArgs false
 set_option linter.unusedVariables false
@@ -318,24 +319,24 @@ theorem einv_run_f10 {σ : St} (x inp : Nat) (k : MK) (I : EInv σ)
 
 /-! ### steps that change the registry -/
 
-theorem held_le_cur {σ : St} (R : RInv σ) (u p : Nat) (h : (σ.th u).pc.holdG = some p) : p ≤ σ.cur := by
+theorem held_le_cur {σ : St} (R : RegInv σ) (u p : Nat) (h : (σ.th u).pc.holdG = some p) : p ≤ σ.cur := by
   have L := R.loc u
   cases hpc : (σ.th u).pc <;> rw [hpc] at h <;> simp only [PC.holdG] at h <;> (try (cases h; done))
   case g2 m hh tl p' i md =>
     injection h with h; subst h
-    simp only [Loc, hpc] at L; exact L.2.2.2.1
+    simp only [RLoc, hpc] at L; exact L
   case a2 c =>
     injection h with h; subst h
-    simp only [Loc, hpc] at L; exact L.2.2
+    simp only [RLoc, hpc] at L; exact L.2.2
 
 /-- a new, unpublished group is allocated -/
-theorem einv_reg_grow {σ σ' : St} {x : Nat} (I : EInv σ) (R : RInv σ)
+theorem einv_reg_grow {σ σ' : St} {x : Nat} (I : EInv σ) (R : RegInv σ)
     (hth : ∀ u, u ≠ x → σ'.th u = σ.th u) (htok : ∀ u, tokOf σ' u = tokOf σ u)
     (hmgr : σ'.mgr = σ.mgr) (hcur : σ'.cur = σ.cur) (hest : σ'.est = σ.est)
     (hgr : ∃ l, σ'.groups = upd σ.groups σ.nextGrp l)
     (c_self : ELoc σ' (tokOf σ x) (σ'.th x)) : EInv σ' := by
   obtain ⟨l, hgr⟩ := hgr
-  have hlt : σ.cur < σ.nextGrp := R.g.curlt
+  have hlt : σ.cur < σ.nextGrp := R.curlt
   have hgc : σ'.groups σ'.cur = σ.groups σ.cur := by
     rw [hgr, hcur]; simp only [upd]; split
     · omega
@@ -373,7 +374,7 @@ theorem einv_cur_move {σ σ' : St} {x : Nat} (I : EInv σ)
   · intro u hu L
     exact ELoc_reg L ⟨h1, h2, h3, h4, h5⟩ (by omega) (fun p _ => by rw [hgroups]) hest hg
 
-theorem einv_run_a2 {σ : St} (x inp : Nat) (c : Nat) (I : EInv σ) (R : RInv σ)
+theorem einv_run_a2 {σ : St} (x inp : Nat) (c : Nat) (I : EInv σ) (R : RegInv σ)
     (hpc : (σ.th x).pc = .a2 c) : EInv (stepRun σ x inp).2 := by
   apply einv_reg_grow (x := x) I R (fun u hu => stepRun_th σ x inp u hu) (tokOf_stepRun σ x inp)
   · simp only [stepRun, hpc]; rfl
@@ -382,7 +383,7 @@ theorem einv_run_a2 {σ : St} (x inp : Nat) (c : Nat) (I : EInv σ) (R : RInv σ
   · simp only [stepRun, hpc]; exact ⟨_, rfl⟩
   · simp only [stepRun, hpc]; simp [ELoc, St.gotoF, St.flush, St.setTh, upd]
 
-theorem einv_run_rr1 {σ : St} (x inp : Nat) (I : EInv σ) (R : RInv σ)
+theorem einv_run_rr1 {σ : St} (x inp : Nat) (I : EInv σ) (R : RegInv σ)
     (hpc : (σ.th x).pc = .rr1) : EInv (stepRun σ x inp).2 := by
   apply einv_reg_grow (x := x) I R (fun u hu => stepRun_th σ x inp u hu) (tokOf_stepRun σ x inp)
   · simp only [stepRun, hpc]; rfl
@@ -391,10 +392,10 @@ theorem einv_run_rr1 {σ : St} (x inp : Nat) (I : EInv σ) (R : RInv σ)
   · simp only [stepRun, hpc]; exact ⟨_, rfl⟩
   · simp only [stepRun, hpc]; simp [ELoc, St.goto, St.flush, St.setTh, upd]
 
-theorem einv_run_a3 {σ : St} (x inp : Nat) (c raw ng : Nat) (I : EInv σ) (R : RInv σ) (K : EStepOK σ x)
+theorem einv_run_a3 {σ : St} (x inp : Nat) (c raw ng : Nat) (I : EInv σ) (R : RegInv σ) (K : EStepOK σ x)
     (hpc : (σ.th x).pc = .a3 c raw ng) : EInv (stepRun σ x inp).2 := by
   have L := R.loc x
-  simp only [Loc, hpc, St.ring] at L
+  simp only [RLoc, hpc] at L
   obtain ⟨_, hens, hcng, hngn, hgng⟩ := L
   by_cases hc : σ.cur = c
   · -- the new list is published
@@ -429,14 +430,14 @@ theorem einv_run_a3 {σ : St} (x inp : Nat) (c raw ng : Nat) (I : EInv σ) (R : 
       simp only [ELoc, St.gotoF, St.flush, St.setTh, upd_same]; exact hold_acquire I htk
     esame I x inp hd hp hself
 
-theorem einv_run_rr2 {σ : St} (x inp : Nat) (c ng : Nat) (I : EInv σ) (R : RInv σ) (K : EStepOK σ x)
+theorem einv_run_rr2 {σ : St} (x inp : Nat) (c ng : Nat) (I : EInv σ) (R : RegInv σ) (K : EStepOK σ x)
     (hpc : (σ.th x).pc = .rr2 c ng) : EInv (stepRun σ x inp).2 := by
   have L := R.loc x
-  simp only [Loc, hpc, St.ring] at L
+  simp only [RLoc, hpc] at L
   obtain ⟨hcng, hngn, hgng⟩ := L
   by_cases hc : σ.cur = c
   · have hreg := K.rem c ng hpc hc
-    have hest : σ.est (σ.th x).s = true := R.g.regest _ (by simp only [reg, St.ring]; rw [hc]; exact hreg)
+    have hest : σ.est (σ.th x).s = true := R.regest _ (by rw [hc]; exact hreg)
     have hnot : (σ.th x).s ∉ σ.groups ng := by
       rw [hgng]; intro h; have := (List.mem_filter.mp h).2; simp at this
     apply einv_cur_move (x := x) I (fun u hu => stepRun_th σ x inp u hu) (tokOf_stepRun σ x inp)
@@ -753,7 +754,7 @@ theorem einv_run_f4 {σ : St} (x inp : Nat) (k : MK) (e i : Nat) (I : EInv σ) (
     esame I x inp hd hp hself
 
 /-- EpochInv is preserved by every `run` step -/
-theorem einv_stepRun {σ : St} (x inp : Nat) (I : EInv σ) (M : MInvS σ) (R : RInv σ) (K : EStepOK σ x) (L : LockOK σ x) :
+theorem einv_stepRun {σ : St} (x inp : Nat) (I : EInv σ) (M : MInvS σ) (R : RegInv σ) (K : EStepOK σ x) (L : LockOK σ x) :
     EInv (stepRun σ x inp).2 := by
   cases hs : (σ.th x).pc.eSrc
   · exact einv_run_plain x inp I hs
